@@ -32,7 +32,7 @@ def tasks(tier):
     for n in (0, 2):
         ts.append(Task('verifHarness_C20_unencodable', [n]))
         ts.append(Task('verifHarness_C20_fail_then_ok', [n]))
-        for f in (1, 2, 3):
+        for f in (1, 2, 3, 11, 12):
             ts.append(Task('verifHarness_C20_writefail', [n, f]))
     return ts
 
